@@ -168,6 +168,19 @@ def run(tier, seed):
                             lines.append(f"@db {names[0]} & $ff")
                             cases.append({"arch": "6502", "stmts": stmts, "src": "\n".join(lines) + "\n", "note": "chain"})
                             n_chain += 1
+    # a struct declared in the middle of a global label's scope, and @undef of a label that has local
+    # and qualified names under it: the surrounding names keep their meaning
+    for lazy in (True, False):
+        stmts = [("label", "mainx"), ("define", lazy, "mainx.k", ("num", 5)),
+                 ("struct", "Point", [("f", "px", ("num", 1)), ("f", "k", ("num", 2))]),
+                 ("db", ("sym", "mainx.k", ".k")), ("db", ("sym", "Point.k", "Point.k")), ("redefine", lazy, "mainx.k", ("bin", "add", ("sym", "mainx.k", ".k"), ("num", 1))),
+                 ("db", ("sym", "mainx.k", ".k"))]
+        src = f"mainx:\n@{'defl' if lazy else 'defn'} .k, 5\n@struct Point\n px 1\n k 2\n@endstruct\n@db .k\n@db Point.k\n@{'redefl' if lazy else 'redefn'} .k, .k + 1\n@db .k\n"
+        cases.append({"arch": "6502", "stmts": stmts, "src": src, "note": "struct-mid-scope"})
+        stmts = [("label", "mainy"), ("label", "mainy.loop"), ("db", ("num", 1)), ("define", lazy, "mainy.count", ("num", 3)), ("undef", "mainy"),
+                 ("db", ("sym", "mainy.count", "mainy.count")), ("dw", ("sym", "mainy.loop", "mainy.loop")), ("label", "mainy")]
+        src = f"mainy:\n.loop:\n@db 1\n@{'defl' if lazy else 'defn'} mainy.count, 3\n@undef mainy\n@db mainy.count\n@dw mainy.loop\nmainy:\n"
+        cases.append({"arch": "6502", "stmts": stmts, "src": src, "note": "undef-scope"})
     res = core.run_cases(chk, cases, "h", key_fn=lambda c, bad: "history:" + bad[:40])
     for r in res:
         chk.distinct.add(r["case"]["src"])
